@@ -231,6 +231,9 @@ class C18(Check):
         return [c for i, c in enumerate(self.fixed_cases(tier)) if i % nshards == shard]
 
     def fixed_cases(self, tier):
+        # the same entry point with different options in the two threads
+        yield {"ops": [{"kind": "sread_named", "schema": "union", "datum": 0, "form": "parsed"}, {"kind": "sread", "schema": "union", "datum": 1, "form": "parsed"}], "multi": []}
+        yield {"ops": [{"kind": "sread", "schema": "list", "datum": 0, "form": "parsed"}, {"kind": "sread_named", "schema": "list", "datum": 0, "form": "parsed"}], "multi": []}
         yield {"ops": [{"kind": "swrite", "schema": "flt", "datum": 0, "form": "parsed"}, {"kind": "swrite", "schema": "flt", "datum": 1, "form": "parsed"}], "multi": []}
         yield {"ops": [{"kind": "cwrite", "schema": "flt", "datum": 1, "form": "raw"}, {"kind": "sread", "schema": "flt", "datum": 0, "form": "parsed"}], "multi": []}
         yield {"ops": [{"kind": "sread_named", "schema": "list", "datum": 0, "form": "parsed"}, {"kind": "sread_named", "schema": "union", "datum": 0, "form": "parsed"}], "multi": []}
